@@ -75,6 +75,16 @@ CHECKS = {
             "Trusted: harness recording; ASan's malloc_fill_byte as the source of differing uninitialised bytes. One "
             "known finding (save after a rules-level string define aborts) is exercised by dedicated cases.",
             "DESIGN.md section 2, C08"),
+    "C10": ("exploration",
+            "differential oracle: reused scanner vs freshly created scanner on the same scan (same process), LSan after each history",
+            "Random histories of scans on one scanner - different file kinds, callback aborts/errors, virtual-clock "
+            "timeouts, match-limit hits, fiber-limit errors, not-ready suspensions resumed or abandoned, flag and "
+            "external changes - are executed under ASan+UBSan+LSan; each scan's return code, callback trace and match "
+            "lists are compared with the same scan on a new scanner with the same settings. Probe rules make "
+            "entrypoint, filesize, module values, disabled-string state, fibers and hash caches observable.",
+            "Trusted: harness recording; the virtual clock hook H2/H3 for timeouts. 'Same settings' means same flags, "
+            "timeout and the same sequence of scanner-level external definitions.",
+            "DESIGN.md section 2, C10"),
 }
 
 NOT_YET = "check not built yet in this round (planned in DESIGN.md section 2); nothing is claimed for it"
